@@ -28,4 +28,17 @@ theorem call_connected (c : Client) (req : Request) (t : Transport) (b : Budget)
   · simp only [hb, if_false]
     cases hk : c.kind <;> simp only [hk] <;> (repeat' split) <;> simp_all
 
+/-- the header a call stamps: the client's current transaction id (TCP; 0 over RTU) and
+    the selected slave -/
+def stampedHdr (c : Client) : Hdr :=
+  match c.kind with
+  | .tcp => { tid := c.nextTid, unit := c.unit }
+  | .rtu => { tid := 0, unit := c.unit }
+
+/-- the write buffer of a client (empty once disconnected) -/
+def Client.wbuf (c : Client) : Bytes :=
+  match c.framed with
+  | some f => f.wbuf
+  | none => []
+
 end Modbus
